@@ -139,6 +139,8 @@ def c10(work, tier, seed):
                     phs = phases if tier == "thorough" else [phases[(stable_hash(cls + a + tr) + ci) % 5], "init"]
                     if cls.startswith("data-"):
                         phs = list(phs) + ["channel"]   # payload classes matter where payload is relayed
+                    if cls.endswith("-flood"):
+                        phs = list(phs) + ["streaming"]   # many packets matter where the other direction is busy too
                     for ph in sorted(set(phs)):
                         add(ep, cls, cfg(a, tls, buf), tr, ph)
                     # the same input from a client that has stopped reading while its host keeps sending
